@@ -5,15 +5,17 @@ package decorator
 import (
 	"context"
 	"fmt"
+	"runtime"
 	"sort"
 	"strings"
+	"sync/atomic"
 	"testing"
 	"time"
 
 	apiextensionsv1 "k8s.io/apiextensions-apiserver/pkg/apis/apiextensions/v1"
 	apiequality "k8s.io/apimachinery/pkg/api/equality"
 	metav1 "k8s.io/apimachinery/pkg/apis/meta/v1"
-	"k8s.io/apimachinery/pkg/runtime"
+	k8sruntime "k8s.io/apimachinery/pkg/runtime"
 	"k8s.io/apimachinery/pkg/types"
 	"sigs.k8s.io/controller-runtime/pkg/client"
 	"sigs.k8s.io/controller-runtime/pkg/client/fake"
@@ -110,7 +112,7 @@ type c20World struct {
 
 func newC20World() *c20World {
 	b := world.NewBase(5*time.Minute, kit.Kinds...)
-	scheme := runtime.NewScheme()
+	scheme := k8sruntime.NewScheme()
 	_ = v1alpha1.AddToScheme(scheme)
 	_ = apiextensionsv1.AddToScheme(scheme)
 	crd := func(res, kind string, status bool) *apiextensionsv1.CustomResourceDefinition {
@@ -455,4 +457,259 @@ func TestVerifC20(t *testing.T) {
 		}
 	}
 	r.Sample(kit.M{"events": []string{"create:x:v1", "update:x:INVALID-unknown-child", "delete:x"}})
+}
+
+// TestVerifC20Workers is the life-cycle build of C20: real workers (numWorkers = 2). Only structural
+// assertions: after every event the number of live worker goroutines never exceeds 2 x running instances
+// (Stop returns only after its workers are gone) and reaches exactly that number (waited for with a long
+// liveness deadline, never used as a safety oracle).
+func workerCensus() int {
+	buf := make([]byte, 1<<20)
+	n := runtime.Stack(buf, true)
+	return strings.Count(string(buf[:n]), "decorator.(*decoratorController).worker(")
+}
+
+func TestVerifC20Workers(t *testing.T) {
+	r := mc.NewReport("C20", "workers")
+	defer r.Write()
+	specs := []string{"v1", "v2", "INVALID-no-hooks", "INVALID-unknown-child"}
+	idx := 0
+	var rec func(hist []string)
+	rec = func(hist []string) {
+		if len(hist) > 0 {
+			idx++
+			if mc.Mine(idx) {
+				x := newC20World()
+				x.mc.numWorkers = 2
+				x.names, x.specs = []string{"x"}, specs
+				for _, s := range c20Specs {
+					x.Hooks.Handle(c20HookPath("x", s), world.JSON(func(req map[string]interface{}) interface{} { return kit.M{"attachments": kit.L{}} }))
+				}
+				r.EvalDistinct(true)
+				r.Transitions += len(hist)
+				for i, ev := range hist {
+					x.hist = append(x.hist, ev)
+					x.applyRaw(ev)
+					want := 0
+					if id := x.object["x"]; id != "" && c20Valid(id) {
+						want = 2
+					}
+					if got := workerCensus(); got > want {
+						r.Violate("C20:workers:still-running-after-stop", fmt.Sprintf("after %v: %d worker goroutines alive, at most %d may be", hist[:i+1], got, want), kit.M{"events": hist[:i+1]})
+					}
+					ok := false
+					for w := 0; w < 600000; w++ {
+						if workerCensus() == want {
+							ok = true
+							break
+						}
+						time.Sleep(100 * time.Microsecond)
+					}
+					if !ok {
+						r.Violate("C20:workers:census", fmt.Sprintf("after %v: %d worker goroutines, want %d", hist[:i+1], workerCensus(), want), kit.M{"events": hist[:i+1]})
+					}
+					r.Outcome(fmt.Sprintf("workers=%d", want))
+				}
+				x.teardown()
+				for w := 0; w < 600000 && workerCensus() != 0; w++ {
+					time.Sleep(100 * time.Microsecond)
+				}
+				if idx%7 == 0 {
+					r.Sample(kit.M{"events": hist})
+				}
+				c20InFlight(r, hist, specs)
+			}
+		}
+		if len(hist) >= 3 {
+			return
+		}
+		// enabled events from the model alone
+		obj := ""
+		for _, ev := range hist {
+			p := strings.Split(ev, ":")
+			switch p[0] {
+			case "create", "update":
+				obj = p[2]
+			case "delete":
+				obj = ""
+			}
+		}
+		var evs []string
+		if obj == "" {
+			for _, s := range specs {
+				evs = append(evs, "create:x:"+s)
+			}
+		} else {
+			evs = append(evs, "noop:x", "delete:x")
+			for _, s := range specs {
+				if s != obj {
+					evs = append(evs, "update:x:"+s)
+				}
+			}
+		}
+		for _, ev := range evs {
+			rec(append(append([]string{}, hist...), ev))
+		}
+	}
+	rec(nil)
+	r.States = r.Evaluations
+}
+
+// stopBlockedOnWorkers reports whether some goroutine sits in decoratorController.Stop waiting on a channel
+// (the only channel receive in Stop is <-pc.doneCh).
+func stopBlockedOnWorkers() bool {
+	buf := make([]byte, 1<<20)
+	n := runtime.Stack(buf, true)
+	for _, g := range strings.Split(string(buf[:n]), "\n\n") {
+		lines := strings.SplitN(g, "\n", 3)
+		if len(lines) >= 2 && strings.Contains(lines[0], "[chan receive") && strings.Contains(lines[1], "decorator.(*decoratorController).Stop(") {
+			return true
+		}
+	}
+	return false
+}
+
+// c20InFlight: the last event of hist stops a running instance while one of its workers is inside the sync
+// hook. Stop must not return (and so the reconciler must not start the successor or report the deletion
+// handled) before that worker is done: otherwise the rest of the sync - hook response, child and status
+// writes - happens on behalf of a stopped instance.
+func c20InFlight(r *mc.Report, hist []string, specs []string) {
+	obj := ""
+	for _, ev := range hist[:len(hist)-1] {
+		p := strings.Split(ev, ":")
+		switch p[0] {
+		case "create", "update":
+			obj = p[2]
+		case "delete":
+			obj = ""
+		}
+	}
+	last := strings.Split(hist[len(hist)-1], ":")
+	if obj == "" || !c20Valid(obj) || last[0] == "noop" || last[0] == "create" {
+		return
+	}
+	r.EvalDistinct(true)
+	x := newC20World()
+	x.mc.numWorkers = 2
+	x.names, x.specs = []string{"x"}, specs
+	entered, release := make(chan struct{}, 16), make(chan struct{})
+	var blocking atomic.Bool
+	for _, s := range c20Specs {
+		path := c20HookPath("x", s)
+		x.Hooks.Handle(path, world.JSON(func(req map[string]interface{}) interface{} {
+			if path == c20HookPath("x", obj) && blocking.Load() {
+				entered <- struct{}{}
+				<-release
+			}
+			return kit.M{"attachments": kit.L{}}
+		}))
+	}
+	for _, ev := range hist[:len(hist)-1] {
+		x.hist = append(x.hist, ev)
+		x.applyRaw(ev)
+	}
+	for w := 0; w < 600000 && workerCensus() != 2; w++ {
+		time.Sleep(100 * time.Microsecond)
+	}
+	blocking.Store(true)
+	x.Sim.Edit(kit.Thing, "n1", "p", func(o map[string]interface{}) { kit.Ann(o, "touch", "in-flight") })
+	x.DeliverAll()
+	select {
+	case <-entered:
+	case <-time.After(5 * time.Minute):
+		r.Capped(fmt.Sprintf("in-flight %v: the worker never reached its hook (harness liveness wait)", hist))
+		close(release)
+		x.teardown()
+		return
+	}
+	done := make(chan struct{})
+	go func() {
+		defer close(done)
+		x.hist = append(x.hist, hist[len(hist)-1])
+		x.applyRaw(hist[len(hist)-1])
+	}()
+	verdict := ""
+	for verdict == "" {
+		select {
+		case <-done:
+			verdict = "returned"
+		default:
+			if stopBlockedOnWorkers() {
+				verdict = "waiting"
+			} else {
+				time.Sleep(100 * time.Microsecond)
+			}
+		}
+	}
+	if verdict == "returned" {
+		r.Violate("C20:workers:stop-returned-with-sync-in-flight", fmt.Sprintf("%v: the reconciler finished handling the last event while a worker of the obsolete instance was still inside its sync hook; the rest of that sync runs on behalf of a stopped instance", hist), kit.M{"events": hist, "in_flight": true})
+	}
+	writesAtRelease := len(x.Sim.Log)
+	blocking.Store(false)
+	close(release)
+	<-done
+	oldCalls := func() int {
+		n := 0
+		x.Hooks.Lock()
+		for _, c := range x.Hooks.Calls {
+			if c.Path == c20HookPath("x", obj) {
+				n++
+			}
+		}
+		x.Hooks.Unlock()
+		return n
+	}
+	callsAtReturn := oldCalls()
+	_ = writesAtRelease
+	want := 0
+	if id := x.object["x"]; id != "" && c20Valid(id) {
+		want = 2
+	}
+	if got := workerCensus(); got > want {
+		r.Violate("C20:workers:still-running-after-stop", fmt.Sprintf("in-flight %v: %d worker goroutines alive, at most %d may be", hist, got, want), kit.M{"events": hist, "in_flight": true})
+	}
+	x.Sim.Edit(kit.Thing, "n1", "p", func(o map[string]interface{}) { kit.Ann(o, "touch", "after") })
+	x.DeliverAll()
+	for w := 0; w < 600000 && workerCensus() != want; w++ {
+		time.Sleep(100 * time.Microsecond)
+	}
+	if n := oldCalls(); n != callsAtReturn {
+		r.Violate("C20:workers:hook-call-after-stop", fmt.Sprintf("in-flight %v: %d hook calls on the stopped instance's URL after the reconciler returned", hist, n-callsAtReturn), kit.M{"events": hist, "in_flight": true})
+	}
+	r.Outcome("in-flight:" + verdict)
+	x.teardown()
+	for w := 0; w < 600000 && workerCensus() != 0; w++ {
+		time.Sleep(100 * time.Microsecond)
+	}
+}
+
+// applyRaw performs the event and the reconcile without the behaviour checks (real workers own the queues).
+func (x *c20World) applyRaw(ev string) {
+	parts := strings.Split(ev, ":")
+	name := parts[1]
+	ctx := context.TODO()
+	switch parts[0] {
+	case "create":
+		_ = x.k8s.Create(ctx, &v1alpha1.DecoratorController{ObjectMeta: metav1.ObjectMeta{Name: name}, Spec: c20Spec(name, parts[2])})
+		x.object[name] = parts[2]
+	case "update":
+		cc := &v1alpha1.DecoratorController{}
+		_ = x.k8s.Get(ctx, types.NamespacedName{Name: name}, cc)
+		cc.Spec = c20Spec(name, parts[2])
+		_ = x.k8s.Update(ctx, cc)
+		x.object[name] = parts[2]
+	case "noop":
+		cc := &v1alpha1.DecoratorController{}
+		_ = x.k8s.Get(ctx, types.NamespacedName{Name: name}, cc)
+		cc.Labels = map[string]string{"touched": fmt.Sprint(len(x.hist))}
+		_ = x.k8s.Update(ctx, cc)
+	case "delete":
+		_ = x.k8s.Delete(ctx, &v1alpha1.DecoratorController{ObjectMeta: metav1.ObjectMeta{Name: name}})
+		x.object[name] = ""
+	}
+	if p, stack := mc.Recover(func() {
+		_, _ = x.mc.Reconcile(ctx, reconcile.Request{NamespacedName: types.NamespacedName{Name: name}})
+	}); p != nil {
+		x.bad("reconcile-panic", "%v\n%s", p, stack)
+	}
 }
